@@ -512,7 +512,80 @@ class Inside(Mem):
                 Buf('inside', 'i32', [0] * inst['npts'], out=True)]
 
 
-FAMILIES = [Aggregate(), FlatHomogen(), IsLin(), Var2h(), Eckhardt(), Combi(),
+class DelineateBoundary(Mem):
+    name, pkg, kernel, srcfile = 'mem:delineate_boundary', 'gis', 'c_delineate_boundary', 'gis/c_catchment.c'
+
+    def instances(self, tier):
+        import itertools
+        out = []
+        shapes = ((1, 1), (1, 3), (2, 2)) if tier == 'quick' else ((1, 1), (1, 3), (2, 2), (3, 3), (2, 3))
+        for r, c in shapes:
+            n = r * c
+            for k in range(1, min(n, 4) + 1):
+                combos = list(itertools.combinations(range(n), k))
+                if len(combos) > 12:
+                    combos = combos[::max(1, len(combos) // 12)]
+                for cells in combos:
+                    out.append(dict(nrows=r, ncols=c, cells=list(cells)))
+        return out
+
+    def inputs(self, inst, S):
+        # Catchment.delineate_boundary: the (filled) area cells, a mask that is 1 exactly on them, buffers of the same length
+        return dict()
+
+    def args(self, inst, I):
+        n = inst['nrows'] * inst['ncols']
+        cells = inst['cells']
+        k = len(cells)
+        # the area vector comes from delineate_area in discovery order: any order is possible, take the reversed one
+        return [Scalar('i64', inst['nrows']), Scalar('i64', inst['ncols']), Scalar('i64', k), Buf('idxcells_area', 'i64', cells[::-1], out=True),
+                Buf('buffer', 'i64', [-1] * k, out=True), Buf('mask', 'i64', [1 if i in cells else 0 for i in range(n)]),
+                Buf('idxcells_boundary', 'i64', [-1] * k, out=True)]
+
+
+class ExcludeZeroArea(Mem):
+    name, pkg, kernel, srcfile = 'mem:exclude_zero_area_boundary', 'gis', 'c_exclude_zero_area_boundary', 'gis/c_catchment.c'
+
+    def instances(self, tier):
+        return [dict(nval=n) for n in (0, 1, 2, 3, 4)]
+
+    def inputs(self, inst, S):
+        return dict(xy=vals(S, 'p', 2 * inst['nval']), deteps=S.real('deteps', nan=True))
+
+    def args(self, inst, I):
+        return [Scalar('i64', inst['nval']), Scalar('double', I['deteps']), Buf('xycoords', 'double', I['xy']), Buf('idxok', 'i64', [0] * inst['nval'], out=True)]
+
+
+class Slice(Mem):
+    name, pkg, kernel, srcfile = 'mem:slice', 'gis', 'c_slice', 'gis/c_grid.c'
+
+    def instances(self, tier):
+        return [dict(nrows=r, ncols=c, nval=n) for r, c in ((1, 1), (2, 2), (2, 3)) for n in (0, 1, 2) if not (tier == 'quick' and n == 2 and r * c > 4)]
+
+    def inputs(self, inst, S):
+        n = inst['nrows'] * inst['ncols']
+        return dict(data=vals(S, 'z', n, inf=False), xy=vals(S, 'p', 2 * inst['nval'], inf=False), xll=S.real('xll', -1e3, 1e3), yll=S.real('yll', -1e3, 1e3))
+
+    def args(self, inst, I):
+        return [Scalar('i64', inst['nrows']), Scalar('i64', inst['ncols']), Scalar('double', I['xll']), Scalar('double', I['yll']), Scalar('double', 1.0),
+                Buf('data', 'double', I['data']), Scalar('i64', inst['nval']), Buf('xyslice', 'double', I['xy']), Buf('zslice', 'double', [0.0] * inst['nval'], out=True)]
+
+
+class OlsLeverage(Mem):
+    name, pkg, kernel, srcfile = 'mem:olsleverage', 'stat', 'c_olsleverage', 'stat/c_olsleverage.c'
+
+    def instances(self, tier):
+        return [dict(n=n, p=p) for n in (0, 1, 2) for p in (0, 1, 2)]
+
+    def inputs(self, inst, S):
+        return dict(X=vals(S, 'x', inst['n'] * inst['p'], inf=False), M=vals(S, 'm', inst['p'] * inst['p'], inf=False))
+
+    def args(self, inst, I):
+        return [Scalar('i32', inst['n']), Scalar('i32', inst['p']), Buf('predictors', 'double', I['X']), Buf('tXXinv', 'double', I['M']),
+                Buf('leverage', 'double', [0.0] * inst['n'], out=True)]
+
+
+FAMILIES = [DelineateBoundary(), ExcludeZeroArea(), Slice(), OlsLeverage(), Aggregate(), FlatHomogen(), IsLin(), Var2h(), Eckhardt(), Combi(),
             DateFn('c_dateutils_getdate'), DateFn('c_dateutils_add1month'), DateFn('c_dateutils_add1day'), DateFn('c_dateutils_comparedates'),
             DateFn('c_dateutils_isleapyear'), DateFn('c_dateutils_daysinmonth'), DateFn('c_dateutils_dayofyear'),
             Crps(), EnsRank(), ArModel('c_armodel_sim'), ArModel('c_armodel_residual'), Pareto(), AdTest(),
@@ -574,7 +647,7 @@ META = dict(
     bounds=['array lengths 0..3 (thorough 0..4), grids up to 2x2 (1x3), ensemble sizes 0..2, AR orders 0,1,2,10,11,12, nprint/maxnan/npoints/limits '
             'over ranges around and beyond the documented ones'],
     outside=['lengths beyond the bound', 'allocation failure (malloc assumed non-NULL)', 'the Cython-generated C (trusted: its buffer checks are the '
-             'source of the precondition)', 'c_slice, c_delineate_boundary, c_exclude_zero_area_boundary, c_olsleverage (not encoded yet)',
+             'source of the precondition)', 
              'UB that no sanitizer flags (e.g. forming an out-of-bounds pointer that is never dereferenced)'],
     assumptions=['wrapper contracts as read from c_hydrodiy_*.pyx and the Python wrappers; stated per family in harness/C05.py'],
     stubs=['fprintf: no effect', 'malloc/free: fresh object', 'qsort: insertion sort with the real comparator', 'exp/log: uninterpreted', 'AD(): arbitrary value'],
